@@ -33,7 +33,7 @@ LEVEL_TEXT = ("C16_balanced, C16_chronological, C16_complete, C16_open_before_us
               "C16_ledger_mark_to_market (Coq, closed under the global context) for every "
               "journal and valuation commodity on which the model of `knut transcode -v V` succeeds: no value adjustment is lost "
               "or doubled -- the values posted to every asset/liability account add up to Sum_c quantity(a,c) * price(c) on the "
-              "journal's last day within ValuationSpec.step_bound * 10^-8, and the clause mtm_check of the executable verdict "
+              "journal's last day within ValuationSpec.step_bound (over the journal's first..last date) * 10^-8, and the clause mtm_check of the executable verdict "
               "finds nothing on the model's ledger; per commodity C16_position_mark_to_market, "
               "C16_valuation_commodity_at_quantity, C16_unbooked_commodity_not_posted; C16_adjusted_account_open: every posting on "
               "an asset/liability account, value adjustments included, has an open directive in force and no earlier close; "
@@ -42,10 +42,9 @@ LEVEL_TEXT = ("C16_balanced, C16_chronological, C16_complete, C16_open_before_us
               "finding F16, pinned by testdata/transcode/example.golden.")
 LEVEL_NOTE = ("Trusted: kernel, extraction, harness; the model-to-code tie is sampled (quick ~300 journals). The theorems are about the "
               "emitted items; that the text reads back to those items is checked on every case (roundtrip_b), not proved. "
-              "Side conditions of the mark-to-market theorems: account names as the parser guarantees them (postings_syntactic) and "
-              "no directive dated before 0001-01-01 (dates_nonneg: mtm_check counts the truncation steps inside [day 0, last day]; "
-              "a journal with dates in the year 0000 gets a smaller allowance than the theorem needs: "
-              "C16_mark_to_market_without_calendar_condition_refuted; the generator stays within 2000-2100). "
+              "Side condition of the mark-to-market theorems: account names as the parser guarantees them (postings_syntactic). "
+              "The truncation steps are counted inside [first directive date, last directive date] (year-0000 dates are negative "
+              "day numbers: C16_mtm_year0_example). "
               "That the A/L account of a value adjustment is still open is proved (C16_adjusted_account_open: coupling of Check's "
               "and Valuate's quantities); for its Income:... account the clause is false (F16).")
 
